@@ -31,12 +31,13 @@ def make_case(rng, tier):
     L = rng.randint(2, 6 if tier == 'quick' else 15)
     hist = []
     for _ in range(L):
-        k = rng.choice(['push', 'pull', 'pull', 'gradient', 'hessian', 'hess_vec', 'jac_vec', 'function', 'other-graph', 'vec_jac'])
+        k = rng.choice(['push', 'push', 'pull', 'pull', 'pull', 'pull', 'pull', 'gradient', 'hessian', 'hess_vec', 'jac_vec', 'function', 'other-graph', 'vec_jac'])
         D, P = rng.randint(1, 3), rng.randint(1, 2)
         x = rand_coeffs(rng, (D, P, N), -1, 1)
         x[0] = rand_coeffs(rng, (P, N), -programs.BOX, programs.BOX)
         hist.append({'k': k, 'x': x, 'pt': rand_coeffs(rng, (N,), -programs.BOX, programs.BOX), 'v': rand_coeffs(rng, (N,), -1, 1),
-                     'seed': rng.randrange(1 << 30), 'kind': rng.choice(['ut', 'ut', 'nd'])})
+                     'seed': rng.randrange(1 << 30), 'kind': rng.choice(['ut', 'ut', 'nd']),
+                     'dt': rng.choice(['float', 'float', 'float', 'int', 'complex'])})
     return {'prog': prog, 'N': N, 'rec': rand_coeffs(rng, (N,), -programs.BOX, programs.BOX), 'hist': hist}
 
 
@@ -44,6 +45,33 @@ def seed_for(shape, s):
     yb = np.round(np.random.RandomState(s).uniform(-1, 1, size=shape) * 8) / 8
     yb[yb == 0] = 0.25
     return yb
+
+
+def conv(a, dt):
+    """the call's arguments in another dtype: integer-valued with an integer dtype, or complex"""
+    a = np.asarray(a, dtype=float)
+    if dt == 'int':
+        return np.round(a).astype(int)
+    if dt == 'complex':
+        return a + 0.25j * a[..., ::-1]
+    return a
+
+
+def fresh_ok(prog, h, k, hx, hpt, call=None):
+    """calls with integer or complex arguments are part of the history only when the same call on a fresh graph
+    is defined (no exception, finite result)"""
+    try:
+        with np.errstate(all='ignore'):
+            if k in ('push', 'pull'):
+                w = c05.val(run_program(prog, [UTPM(hx.copy()) if h['kind'] == 'ut' else hx[0, 0].copy()]))
+            elif k == 'function':
+                w = np.asarray(run_program(prog, [hpt.copy()]))
+            else:
+                cg2, fx2, fy2 = trace(prog, [hpt.copy()])
+                w = np.asarray(call(cg2))
+        return bool(np.all(np.isfinite(w)))
+    except Exception:
+        return False
 
 
 def history_fails(case):
@@ -56,17 +84,37 @@ def history_fails(case):
     last_push = None      # inputs of the last forward evaluation (what a pullback refers to)
     for step, h in enumerate(case['hist']):
         k = h['k']
+        dt = h.get('dt', 'float')
+        hx = conv(h['x'], dt)
+        hpt = conv(h['pt'], dt if dt != 'complex' else 'float')
+        drv = None
+        if k in ('gradient', 'hessian', 'hess_vec', 'jac_vec', 'vec_jac'):
+            v_ = np.array(h['v'])
+            drv = {'gradient': lambda g: g.gradient(hpt), 'hessian': lambda g: g.hessian(hpt), 'hess_vec': lambda g: g.hess_vec(hpt, v_),
+                   'jac_vec': lambda g: g.jac_vec(hpt, v_), 'vec_jac': lambda g: g.vec_jac(np.array([1.5]), hpt)}[k]
+        if dt != 'float' and not (k == 'pull' and last_push is not None) and k != 'other-graph':
+            if not fresh_ok(prog, h, k, hx, hpt, drv):
+                continue
         try:
             with np.errstate(all='ignore'):
                 if k == 'push' or (k == 'pull' and last_push is None):
-                    xin = UTPM(np.array(h['x'])) if h['kind'] == 'ut' else np.array(h['x'])[0, 0]
+                    xin = UTPM(hx.copy()) if h['kind'] == 'ut' else hx[0, 0].copy()
                     cg.pushforward([xin])
                     got = c05.val(cg.dependentFunctionList[0].x)
-                    want = c05.val(run_program(prog, [UTPM(np.array(h['x'])) if h['kind'] == 'ut' else np.array(h['x'])[0, 0]]))
-                    last_push = h if h['kind'] == 'ut' else None
+                    want = c05.val(run_program(prog, [UTPM(hx.copy()) if h['kind'] == 'ut' else hx[0, 0].copy()]))
+                    last_push = dict(h, x=hx) if h['kind'] == 'ut' else None
                     name = 'pushforward'
                 elif k == 'pull':
                     xs = np.array(last_push['x'])
+                    if last_push.get('dt', 'float') != 'float':
+                        # a reverse sweep after an integer/complex forward evaluation belongs to the history only if it is defined on a fresh graph
+                        try:
+                            cgf, fxf, fyf = trace(prog, [UTPM(xs.copy())])
+                            cgf.pullback([UTPM(seed_for(fyf.x.data.shape, h['seed']))])
+                            if not np.all(np.isfinite(fxf[0].xbar.data)):
+                                continue
+                        except Exception:
+                            continue
                     snap = [c05.val(f.x).copy() if isinstance(f.x, (UTPM, np.ndarray)) else None for f in cg.functionList]
                     yb = seed_for(cg.dependentFunctionList[0].x.data.shape, h['seed'])
                     cg.pullback([UTPM(yb.copy())])
@@ -81,8 +129,8 @@ def history_fails(case):
                     want = np.array(fx2[0].xbar.data)
                     name = 'pullback'
                 elif k == 'function':
-                    got = np.asarray(cg.function([np.array(h['pt'])])[0])
-                    want = np.asarray(run_program(prog, [np.array(h['pt'])]))
+                    got = np.asarray(cg.function([hpt.copy()])[0])
+                    want = np.asarray(run_program(prog, [hpt.copy()]))
                     last_push = None
                     name = 'function'
                 elif k == 'other-graph':
@@ -91,9 +139,7 @@ def history_fails(case):
                     cgo.function([rand_coeffs(__import__('random').Random(h['seed'] + 1), tuple(s), -1, 1) for s in p2['inputs']])
                     continue
                 else:
-                    pt, v = np.array(h['pt']), np.array(h['v'])
-                    call = {'gradient': lambda g: g.gradient(pt), 'hessian': lambda g: g.hessian(pt), 'hess_vec': lambda g: g.hess_vec(pt, v),
-                            'jac_vec': lambda g: g.jac_vec(pt, v), 'vec_jac': lambda g: g.vec_jac(np.array([1.5]), pt)}[k]
+                    pt, call = hpt, drv
                     got = np.asarray(call(cg))
                     cg2, fx2, fy2 = trace(prog, [pt.copy()])
                     want = np.asarray(call(cg2))
@@ -122,7 +168,7 @@ def replay_case(ctx, case):
 
 def run(ctx):
     rng = ctx.rng
-    for i in range(250 if ctx.tier == 'quick' else 3000):
+    for i in range(400 if ctx.tier == 'quick' else 4000):
         case = make_case(rng, ctx.tier)
         ctx.evaluations += 1
         for o in programs.ops_used(case['prog']):
